@@ -383,7 +383,11 @@ wait:
 // killed and reported as ErrSpinning (non-termination: the measure is processor time, not the clock); a process
 // that reaches WallLimit without having used that much processor time was starved or is blocked: ErrTimeout (no
 // verdict). Otherwise the result of Wait is returned.
-func Watch(cmd *exec.Cmd) error {
+func Watch(cmd *exec.Cmd) error { return WatchCPU(cmd, SpinCPU) }
+
+// WatchCPU is Watch with another processor-time limit (a shorter one while a failure that was established with
+// SpinCPU is being shrunk).
+func WatchCPU(cmd *exec.Cmd, spin time.Duration) error {
 	if err := cmd.Start(); err != nil {
 		return err
 	}
@@ -397,7 +401,7 @@ func Watch(cmd *exec.Cmd) error {
 		case err := <-done:
 			return err
 		case <-tick.C:
-			if cpuTime(cmd.Process.Pid) >= SpinCPU {
+			if cpuTime(cmd.Process.Pid) >= spin {
 				_ = cmd.Process.Kill()
 				<-done
 				return ErrSpinning
